@@ -797,7 +797,7 @@ const NB_SIZE: usize = 24;
 /// what a collection hand-off leaves in the arena: (address, element count)
 /// `probe`: between reserving and filling, ask for far more room (which fails when a limit or fault plan is in the
 /// way and must then change nothing) and make a small neighbour allocation; its address is reported through `nb`.
-fn handoff<T: Copy + 'static>(b: &Bump<1>, elems: &[T], cap: usize, variant: u8, fallible: bool, probe: bool, nb: &Cell<usize>) -> Option<(usize, usize)> {
+fn handoff<T: Copy + 'static>(b: &Bump<1>, elems: &[T], cap: usize, variant: u8, fallible: bool, probe: bool, nb: &Cell<usize>, splice: Option<(usize, usize, usize, usize)>) -> Option<(usize, usize)> {
     use bumpalo::boxed::Box as BBox;
     use bumpalo::collections::Vec as BVec;
     let mut v: BVec<T> = if fallible {
@@ -817,6 +817,12 @@ fn handoff<T: Copy + 'static>(b: &Bump<1>, elems: &[T], cap: usize, variant: u8,
         }
     }
     v.extend_from_slice_copy(elems);
+    if let Some((lo, hi, k1, k2)) = splice {
+        // replace a middle range by an iterator whose size hint has a non-zero but inexact lower bound (an exact part
+        // chained with a filtered one): the tail is moved twice and the buffer may have to grow in between
+        let it = elems[..k1].iter().copied().chain(elems[..k2].iter().copied().enumerate().filter(|(j, _)| j % 2 == 0).map(|(_, x)| x));
+        drop(v.splice(lo..hi, it));
+    }
     Some(match variant {
         1 => {
             let s = v.into_bump_slice_mut();
@@ -909,12 +915,36 @@ impl<const M: usize> Sim<M> {
             None
         };
         let len = if lossy_raw.is_some() { text.len() } else { len };
+        // byte vectors, when nothing can fail: one in two is spliced in the middle before it is handed over
+        let splice: Option<(usize, usize, usize, usize)> = if (variant == 0 || variant == 1) && esz == 1 && !can_fail && op.b & 0x08 != 0 && len >= 4 {
+            let lo = 1 + (op.c as usize % (len - 2));
+            let hi = (lo + (op.c as usize >> 4) % 3).min(len - 1);
+            Some((lo, hi, 1 + (op.c as usize >> 2) % len.min(6), len.min(2 + (op.c as usize >> 1) % 12)))
+        } else {
+            None
+        };
+        let spliced: Option<Vec<u8>> = splice.map(|(lo, hi, k1, k2)| {
+            let mut t = bytes.clone();
+            let repl: Vec<u8> = bytes[..k1].iter().copied().chain(bytes[..k2].iter().copied().enumerate().filter(|(j, _)| j % 2 == 0).map(|(_, x)| x)).collect();
+            t.splice(lo..hi, repl);
+            t
+        });
+        // for a spliced vector the capacity is chosen tight: room for the filtered part of the replacement and for some,
+        // all or none of the part announced by the size hint (the interesting boundary cases of the two tail moves)
+        let cap = match splice {
+            Some((lo, hi, k1, k2)) => {
+                let lower = k1.saturating_sub(hi - lo);
+                len + (k2 + 1) / 2 + (op.b as usize >> 5) % (lower + 2)
+            }
+            None => cap,
+        };
+        let len = spliced.as_ref().map_or(len, |t| t.len());
         let e16: Vec<u16> = if esz == 2 { bytes.chunks(2).map(|c| u16::from_ne_bytes([c[0], c[1]])).collect() } else { vec![] };
         let e32: Vec<u32> = if esz == 4 { bytes.chunks(4).map(|c| u32::from_ne_bytes([c[0], c[1], c[2], c[3]])).collect() } else { vec![] };
         let e64: Vec<u64> = if esz == 8 { bytes.chunks(8).map(|c| u64::from_ne_bytes([c[0], c[1], c[2], c[3], c[4], c[5], c[6], c[7]])).collect() } else { vec![] };
         self.note_align_stats(cap * esz, esz);
         let probe = can_fail && fallible && op.b & 0x20 != 0;
-        let pre = self.pre(if cap > 0 && !probe && lossy_raw.is_none() { Some(l) } else { None }, fallible);
+        let pre = self.pre(if cap > 0 && !probe && lossy_raw.is_none() && splice.is_none() { Some(l) } else { None }, fallible);
         let what: &'static str = match (variant, fallible) {
             (1, false) => "Vec::with_capacity_in + into_bump_slice_mut",
             (1, true) => "Vec::try_reserve_exact + into_bump_slice_mut",
@@ -939,10 +969,10 @@ impl<const M: usize> Sim<M> {
             let b1: &Bump<1> = (b as &dyn std::any::Any).downcast_ref::<Bump<1>>().expect("M == 1");
             match (variant, esz) {
                 (4, _) | (5, _) => handoff_str(b1, &text, cap, variant, fallible, lossy_raw.as_deref()),
-                (_, 2) => handoff(b1, &e16, cap, variant, fallible, probe, &nb),
-                (_, 4) => handoff(b1, &e32, cap, variant, fallible, probe, &nb),
-                (_, 8) => handoff(b1, &e64, cap, variant, fallible, probe, &nb),
-                _ => handoff(b1, &bytes, cap, variant, fallible, probe, &nb),
+                (_, 2) => handoff(b1, &e16, cap, variant, fallible, probe, &nb, None),
+                (_, 4) => handoff(b1, &e32, cap, variant, fallible, probe, &nb, None),
+                (_, 8) => handoff(b1, &e64, cap, variant, fallible, probe, &nb, None),
+                _ => handoff(b1, &bytes, cap, variant, fallible, probe, &nb, splice),
             }
         });
         let (outcome, r) = self.post_call(OpKind::Alloc, what, res, pre);
@@ -972,11 +1002,17 @@ impl<const M: usize> Sim<M> {
             self.st(St::Handoff);
             if self.check_new_block(what, p, size, esz, None) {
                 let got = unsafe { std::slice::from_raw_parts(p as *const u8, size) };
-                let want: &[u8] = if variant == 4 || variant == 5 { &text.as_bytes()[..size] } else { &bytes[..size] };
+                let want: &[u8] = if variant == 4 || variant == 5 {
+                    &text.as_bytes()[..size]
+                } else if let Some(t) = spliced.as_ref() {
+                    &t[..size]
+                } else {
+                    &bytes[..size]
+                };
                 if got != want {
-                    self.v("C02", format!("{what}(capacity {cap}, {len} elements of {esz} bytes): the handed-over contents read back differently"));
+                    self.v("C02", format!("{what}(capacity {cap}, {len} elements of {esz} bytes{}): the handed-over contents read back differently", if splice.is_some() { ", spliced before the hand-over" } else { "" }));
                 }
-                if variant == 4 || variant == 5 {
+                if variant == 4 || variant == 5 || splice.is_some() {
                     unsafe { write_pat(id, p as *mut u8, size) };
                 }
                 self.add_block(id, p, size, esz, false);
